@@ -429,4 +429,105 @@ def rule_j(ctx: Ctx) -> None:
     canonical_urls(ctx, 'C09.j')
 
 
-RULES = [rule_a, rule_b, rule_c, rule_d, rule_e, rule_f, rule_g, rule_h, rule_i, rule_j]
+UNPICKLABLE_CTORS = ('MappingProxyType', 'iter', 'map', 'filter', 'zip', 'open', 'urlopen', 'local', 'reversed', 'enumerate')
+
+
+def _unpicklable(v: ast.AST):
+    """a value expression whose result pickle refuses: a read-only proxy, a lambda, a generator / iterator object, an open file."""
+    if isinstance(v, (ast.Lambda, ast.GeneratorExp)):
+        return type(v).__name__.lower()
+    if isinstance(v, ast.Call):
+        if isinstance(v.func, ast.Name) and v.func.id in UNPICKLABLE_CTORS:
+            return f'{v.func.id}(…)'
+        if isinstance(v.func, ast.Attribute) and v.func.attr in ('MappingProxyType', 'urlopen', 'local') and isinstance(v.func.value, ast.Name):
+            return f'{text(v.func)}(…)'
+    if isinstance(v, ast.IfExp):
+        return _unpicklable(v.body) or _unpicklable(v.orelse)
+    return None
+
+
+def rule_k(ctx: Ctx) -> None:
+    """Restoring from a pickle: everything a schema holds on to through instance attributes goes through pickle.  A value that pickle
+    refuses (a mappingproxy, a lambda, a generator or iterator object, an open file) may live in a class attribute - never pickled - but
+    not in an instance attribute, unless the class's __getstate__ leaves that attribute out."""
+    rule = 'C09.k'
+    idx = ctx.idx
+    n = n_cls = 0
+    probe = ast.parse("self.a = MappingProxyType({})\nself.b = lambda x: x\nself.c = (i for i in y)\nself.d = {}").body
+    ok = [bool(_unpicklable(s_.value)) for s_ in probe] == [True, True, True, False]
+    ctx.ob(rule, 'the recogniser matches its positive examples (mappingproxy, lambda, generator) and not a plain dict', 'xsa/rules/c09.py:1', ok, '', key='recogniser|self-check', nontrivial=False)
+    for c in idx.classes.values():
+        if c.module.name.startswith(('xmlschema.testing', 'xmlschema.extras', 'xmlschema.cli', 'xmlschema.utils.streams')):
+            continue
+        n_cls += 1
+        dropped = ''
+        for k_ in c.mro():
+            gs = k_.methods.get('__getstate__') if hasattr(k_, 'methods') else None
+            if gs is not None:
+                dropped += text(gs.node)
+        for m in c.methods.values():
+            if isinstance(m.node, ast.Lambda):
+                continue
+            for s_ in walk_no_nested(m.node):
+                if isinstance(s_, ast.Assign):
+                    tgs, v = s_.targets, s_.value
+                elif isinstance(s_, ast.AnnAssign) and s_.value is not None:
+                    tgs, v = [s_.target], s_.value
+                else:
+                    continue
+                attrs = [t.attr for t in tgs if isinstance(t, ast.Attribute) and isinstance(t.value, ast.Name) and t.value.id in ('self', 'obj')]
+                if not attrs:
+                    continue
+                n += 1
+                why = _unpicklable(v)
+                if why is None:
+                    continue
+                for a in attrs:
+                    ok = repr(a) in dropped
+                    ctx.ob(rule, f'{c.name}.{m.name}: `{text(s_)[:60]}` keeps the instance picklable', m.loc(s_), ok,
+                           'left out by __getstate__' if ok else f'the instance attribute `{a}` holds a {why}, which pickle refuses, and no __getstate__ of the class leaves it out: '
+                           'pickle.dumps() of a schema that reaches this object raises TypeError (a class attribute is never pickled and may hold such a value)',
+                           key=f'{c.qualname}|unpicklable|{a}')
+    ctx.floor(rule, 'instance-attribute assignments inspected', n, 400)
+    ctx.floor(rule, 'classes inspected', n_cls, 100)
+    ctx.explain('C09.k: no assignment to an instance attribute (self.x = …) in the package stores a mappingproxy, lambda, generator/iterator object or open file, '
+                'unless a __getstate__ of the class names the attribute.')
+
+
+def rule_l(ctx: Ctx) -> None:
+    """Building twice: what build() adds, clear() removes.  The components are created anew by every build and carry their own error lists,
+    but the errors that the loading of the globals reports against the *schema document* (a global declared twice, a redefinition without an
+    original) are appended to the error list of the schema object, which survives the rebuild."""
+    rule = 'C09.l'
+    idx = ctx.idx
+    gm = idx.cls(f'{B}.GlobalMaps')
+    sites = []
+    for m in gm.methods.values():
+        if isinstance(m.node, ast.Lambda):
+            continue
+        for c in calls(m.node):
+            if isinstance(c.func, ast.Attribute) and c.func.attr == 'parse_error' and text(c.func.value) in ('schema', '_schema', 'self.validator'):
+                sites.append((m, c))
+    ctx.floor(rule, 'build-time reports against the schema document in GlobalMaps', len(sites), 3)
+    pe = idx.func('xmlschema.validators.xsdbase.XsdValidator.parse_error')
+    appends = any(text(c.func) == 'self.errors.append' for c in calls(pe.node))
+    resets = []
+    for q in (f'{GLOB}.clear', 'xmlschema.validators.schemas.XMLSchemaBase.clear', f'{GLOB}.build', f'{B}.GlobalMaps.clear'):
+        f = idx.functions.get(q)
+        if f is None:
+            continue
+        for x in ast.walk(f.node):
+            if isinstance(x, ast.Attribute) and x.attr == 'errors' and not isinstance(x.ctx, ast.Load) or \
+                    isinstance(x, ast.Call) and isinstance(x.func, ast.Attribute) and x.func.attr in ('clear', '__delitem__') and text(x.func.value).endswith('.errors'):
+                resets.append(q)
+    ok = not (sites and appends) or bool(resets)
+    m0, c0 = sites[0]
+    ctx.ob(rule, 'the errors that the loading of the globals reports against a schema document do not survive clear() + build()', m0.loc(c0), ok,
+           '' if ok else f'{len(sites)} report sites in GlobalMaps append to schema.errors (XsdValidator.parse_error, lax mode); neither XsdGlobals.clear() nor XMLSchemaBase.clear() '
+           'nor build() resets that list: every rebuild of a lax schema with a duplicate global appends the same error once more, so all_errors grows 2, 3, 4 ...',
+           key='schema.errors|rebuild-accumulates')
+    ctx.explain('C09.l: GlobalMaps reports duplicate globals / bad redefinitions through schema.parse_error(), which appends to schema.errors; the functions that start a rebuild '
+                '(XsdGlobals.clear / build, XMLSchemaBase.clear, GlobalMaps.clear) are searched for a reset of an `.errors` list.')
+
+
+RULES = [rule_a, rule_b, rule_c, rule_d, rule_e, rule_f, rule_g, rule_h, rule_i, rule_j, rule_k, rule_l]
